@@ -14,6 +14,9 @@
 //	immutable  (searcher) import values reject assignment; two imports share no mutable state
 //	derived    (searcher) writes into values derived from an import value (slice, append, +, copy, loop variables,
 //	           splice, delete) leave the export unchanged (seen via the value, the module's accessor, a fresh import)
+//	embed      (searcher, embed.go) what a module sees does not depend on the embedder's set-up: symbol-table histories of
+//	           the Compiler API (host variables before/after/between the builtins, reused table, REPL, Script.Add), host and
+//	           importer variables named like builtin functions, chains/diamonds, seven use sites; values via a host sink
 //	rerun      (searcher) every evaluation of an import expression runs the body again (host-side counter)
 //	emit, run  bytecode of import/export sites and import values vs the micro model
 //	nofs       (searcher) with file import disabled no path derived from an import name reaches the kernel
@@ -1577,6 +1580,11 @@ func main() {
 		res.Write(f.Out)
 		return
 	}
+	if os.Getenv("C13_ONLY") == "embed" { // development aid: the embed stream alone
+		embedStream(lib.NewRNG(f.Seed).Fork(), f.Scale(4000, 40000))
+		res.Write(f.Out)
+		return
+	}
 	for _, c := range corpus() {
 		checkCase(c, "", c.Stream == "graph")
 	}
@@ -1604,6 +1612,7 @@ func main() {
 	immutable(rng.Fork(), f.Scale(200, 3000))
 	derived(rng.Fork(), f.Scale(600, 6000))
 	objectModules(rng.Fork(), f.Scale(150, 3000))
+	embedStream(rng.Fork(), f.Scale(4000, 40000))
 	rerun(rng.Fork(), f.Scale(100, 2000))
 	emitAndRun(rng.Fork(), f.Scale(100, 2000))
 	nofs(rng.Fork(), f.Scale(150, 1500))
@@ -1664,6 +1673,9 @@ func replay(path string) {
 	}
 	rng := lib.NewRNG(1)
 	for _, in := range inputs {
+		if replayEmbed(in) {
+			continue
+		}
 		var g gcase
 		if json.Unmarshal(in, &g) == nil && (len(g.Mods) > 0 || len(g.Main) > 0) {
 			if g.AllowFile {
